@@ -781,15 +781,16 @@ pub fn run_state_case(spec: &Spec, out: &mut dyn Write) -> GeomOut {
     let n = if multi { st.total() } else { syms.len() };
 
     writeln!(out, "K {}", spec.text).unwrap();
-    if multi {
-        // several sites: outside the single-site model; only the monitors speak
-        writeln!(out, "N").unwrap();
-    }
+
     writeln!(out, "Y {}", n).unwrap();
     for s in syms.iter() {
         writeln!(out, "S {}", hex9(s)).unwrap();
     }
-    writeln!(out, "T {} {} {} {}", hex(sx), hex(sy), hex(phi.cos()), hex(phi.sin())).unwrap();
+    // every occupied site, in order (the command line occupies one; the library and a file may occupy several)
+    for site in js["occupied_sites"].as_array().map(|a| a.as_slice()).unwrap_or(&[]) {
+        let (x, y, ang) = (site["x"].as_f64().unwrap_or(f64::NAN), site["y"].as_f64().unwrap_or(f64::NAN), site["angle"].as_f64().unwrap_or(f64::NAN));
+        writeln!(out, "T {} {} {} {}", hex(x), hex(y), hex(ang.cos()), hex(ang.sin())).unwrap();
+    }
     writeln!(out, "L {} {} {} {}", hex(len), hex(ratio), hex(cs), hex(sn)).unwrap();
     match &items {
         Items::Segs(v) => {
